@@ -375,25 +375,33 @@ def check_C05(ctx):
         ctx.violation(sig, "assembling %r (configuration #%d): %s" % (__import__("base64").b64decode(payload["b64"])[:200], e.get("cfg", 0), json.dumps({k: v for k, v in e.items() if k not in ("b64", "text")})), payload)
     for c in crashes[:3]:
         # reproduce alone before believing it
-        o = ctx.run_harness(["fuzz", "-only", c["b64"], "-out", os.path.join(ctx.sub("cr%d" % c["id"]), "r")], check=False, timeout=300)
-        if o.returncode == 0:
-            raise ToolError("a hung/crashed case did not reproduce when run alone: %r" % c)
-        ctx.violation("C05 did-not-return-or-crashed", "assembling %r did not return within the deadline or crashed the process (exit %d): %s" % (
-            __import__("base64").b64decode(c["b64"])[:200], c["exit"], c["stderr"][-300:]), dict(kind="fuzz", b64=c["b64"], cfg=c["cfg"]))
+        # (up to 8 attempts: whether a defect shows may depend on Go's randomised map iteration order)
+        for attempt in range(1, 9):
+            o = ctx.run_harness(["fuzz", "-only", c["b64"], "-out", os.path.join(ctx.sub("cr%d_%d" % (c["id"], attempt)), "r")], check=False, timeout=300)
+            if o.returncode != 0:
+                break
+        else:
+            raise ToolError("a hung/crashed case did not reproduce in 8 attempts when run alone: %r" % c)
+        ctx.violation("C05 did-not-return-or-crashed", "assembling %r did not return within the deadline or crashed the process (exit %d; reproduced alone at attempt %d): %s" % (
+            __import__("base64").b64decode(c["b64"])[:200], c["exit"], attempt, c["stderr"][-300:]), dict(kind="fuzz", b64=c["b64"], cfg=c["cfg"]))
 
 
 def replay_fuzz(ctx, payload):
     d = ctx.sub("replay")
-    p = ctx.run_harness(["fuzz", "-only", payload["b64"], "-out", os.path.join(d, "r")], check=False, timeout=300)
-    f = os.path.join(d, "r.000.ndjson")
     ctx.cov["evaluations"] = 7
-    if p.returncode != 0:
-        ctx.violation(payload["signature"], payload["what"], dict(kind="fuzz", b64=payload["b64"], cfg=payload.get("cfg", 0)))
-        return
-    rej, _ = validate_asm(ctx, [f], "C05")
     ctx.cov["traces_validated_against_impl"] = 7
-    if rej:
-        ctx.violation(payload["signature"], payload["what"], dict(kind="fuzz", b64=payload["b64"], cfg=payload.get("cfg", 0)))
+    for attempt in range(8):      # a defect that depends on map iteration order or scheduling may need several attempts
+        dd = os.path.join(d, "a%d" % attempt)
+        os.makedirs(dd, exist_ok=True)
+        p = ctx.run_harness(["fuzz", "-only", payload["b64"], "-out", os.path.join(dd, "r")], check=False, timeout=300)
+        f = os.path.join(dd, "r.000.ndjson")
+        if p.returncode != 0:
+            ctx.violation(payload["signature"], payload["what"], dict(kind="fuzz", b64=payload["b64"], cfg=payload.get("cfg", 0)))
+            return
+        rej, _ = validate_asm(ctx, [f], "C05")
+        if rej:
+            ctx.violation(payload["signature"], payload["what"], dict(kind="fuzz", b64=payload["b64"], cfg=payload.get("cfg", 0)))
+            return
 
 
 def replay_lx(ctx, payload):
